@@ -146,7 +146,9 @@ partial def randomWalk {St Loc β} (M : Machine St Loc Int β) (nSinks len : Nat
 /-- LONG deterministic walks (counts in the hundreds: counters that wrap or saturate are out of reach of short scripts).
 `mode 0` "pump": greet whatever waits to greet, return from whatever is open, and at top level alternately pull and let the first live
 upstream deliver, for `rounds` rounds, then end the upstreams.  `mode 1` "nested pulls": as 0, but inside every data delivery the sink
-first pulls `burst` times before returning (a sink like `for_each` re-pulling, or many sinks of a shared source pulling in turn). -/
+first pulls `burst` times before returning (a sink like `for_each` re-pulling, or many sinks of a shared source pulling in turn).
+`mode 2` "pullable members": the sink pulls at top level; every Pull that reaches an upstream is answered INSIDE the Pull, with a datum
+the first `burst` times and with the end after that (so that the hand-over to the next member happens on Pull number `burst + 1`). -/
 partial def longWalk {St Loc β} (M : Machine St Loc Int β) (nSinks rounds burst mode : Nat) : List (Move Int) := Id.run do
   let mut s := Sys.init M
   let mut path : List (Move Int) := []
@@ -164,6 +166,29 @@ partial def longWalk {St Loc β} (M : Machine St Loc Int β) (nSinks rounds burs
     let isTerm : Move Int → Bool := fun m => match m with | .call (.srcDown _ .term) => true | _ => false
     let isRet : Move Int → Bool := fun m => match m with | .ret => true | _ => false
     let inData := match s.stack with | .wait (.down _ (.data _)) _ :: _ => true | _ => false
+    let inPullOf : Option Nat := match s.stack with | .wait (.srcUp i .pull) _ :: _ => some i | _ => none
+    if mode == 2 then
+      -- answered data per upstream are counted in the trace
+      let choice2 :=
+        if let some c := find isGreet then some c
+        else match inPullOf with
+          | some i =>
+            let answered := match s.tr with | Ev.retO :: _ => true | _ => false    -- the operator has returned from our answer
+            if answered then find isRet else
+            let cnt := (s.tr.filter fun (e : Ev Int β) => match e with | Ev.inp (In.srcDown j (Down.data _)) => j == i | _ => false).length
+            if cnt < burst then find (fun m => match m with | .call (.srcDown j (.data _)) => j == i | _ => false)
+            else find (fun m => match m with | .call (.srcDown j .term) => j == i | _ => false)
+          | none =>
+            if let some c := find isRet then some c
+            else if let some c := find isSub then some c
+            else if round ≥ rounds then none else find isPull
+      match choice2 with
+      | none => break
+      | some (m, s2) =>
+        if s.stack.isEmpty && isPull m then round := round + 1
+        path := m :: path
+        s := s2
+        continue
     let choice :=
       if let some c := find isGreet then some c
       else if mode == 1 && inData && inBurst < burst then
